@@ -762,7 +762,11 @@ func c41ManyFrames(e *c41Env) {
 				e.r.Violation(viol.Key+":many-frames", map[string]any{"case": c.String(), "detail": viol.Detail})
 				continue
 			}
-			out := e.deliver(res.frames, c41Seq(len(res.frames)))
+			var out [][]byte
+			if p := mc.Safely(func() { out = e.deliver(res.frames, c41Seq(len(res.frames))) }); p != nil {
+				e.r.Violation("inorder:panic:many-frames", map[string]any{"case": c.String(), "frames": len(res.frames), "panic": fmt.Sprint(p)})
+				continue
+			}
 			e.r.Case(c.String(), true)
 			if len(out) == 1 && bytes.Equal(out[0], pkt) {
 				e.outExact.Add(1)
